@@ -14,7 +14,9 @@
    [stat_sim] / [obs_sim]: equality, except that the specification reports 0 for the size of a directory (in a
    FileInfo, and in every entry of a directory listing). *)
 From Avfs Require Import Base PathModel PathSpec PathProofs PathCleanProofs PathIterProofs.
-From Avfs Require Import MemFS MemFile World Posix Inv WalkBridge WalkSym WalkBudget WalkReadlink WalkRel StepEq WalkInv StepInv.
+From Coq Require Import Permutation.
+From Avfs Require Import MemFS MemFile World Posix Inv WalkBridge WalkSym WalkBudget WalkReadlink WalkRel StepEq WalkInv StepInv
+  HeapEq HeapEqSnap StepRename StepRenameDir StepHist.
 
 Theorem C01_step_stat : forall (s : fsys) (sv : sview) (cs : list str),
   step_hyps s sv -> path_ok s sv SlStat cs ->
@@ -220,3 +222,57 @@ Proof.
   split; [exact StepInvExamples.tree_inv|]. split; [exact StepInvExamples.tree_links_ok|].
   exact (proj1 StepInvExamples.hist_inv).
 Qed.
+
+(* ---- Rename over an existing destination: up to the ORDER of directory entries ------------------------------------------ *)
+(* [heq]: the same nodes, the entries of a directory equal up to a permutation.  It is invisible: same snapshot, same walk *)
+Theorem C01_heq_snapshot : forall (w w' : world) (vi : nat),
+  heq (f_heap (w_fs w)) (f_heap (w_fs w')) -> w_views w = w_views w' ->
+  (forall d, NoDup (map fst (children (f_heap (w_fs w)) d))) -> snapshot w' vi = snapshot w vi.
+Proof. exact snapshot_heq. Qed.
+
+Theorem C01_heq_search : forall (s s' : fsys) (v : view) (p : str) (slm : slmode),
+  fsys_heq s s' -> names_nodup (f_heap s) -> search_node s' v p slm = search_node s v p slm.
+Proof. exact search_node_heq. Qed.
+
+(* a file or symbolic link renamed over an existing file or symbolic link (another node): the implementation replaces the
+   entry in place, renameat2 removes it and appends the moved one *)
+Theorem C01_step_rename_over :
+  forall (s : fsys) (sv : sview) (wo : list str) (clo : str) (wn : list str) (cln : str) (np nc : nat),
+  step_hyps s sv -> path_ok s sv SlLstat (wo ++ [clo]) -> path_ok s sv SlLstat (wn ++ [cln]) ->
+  source_not_dir s sv (wo ++ [clo]) ->
+  klookup s sv false false (abs_path (wn ++ [cln])) = WNode np LNorm cln nc -> dest_plain s nc ->
+  (forall par k nm oc, klookup s sv false false (abs_path (wo ++ [clo])) = WNode par k nm oc -> oc <> nc) ->
+  sym_single (f_heap s) -> NoDup (map fst (children (f_heap s) np)) ->
+  let o := abs_path (wo ++ [clo]) in
+  let n := abs_path (wn ++ [cln]) in
+  fsys_heq (fst (rename s (sv_view sv) o n)) (fst (go_rename s sv o n))
+  /\ proj_res Linux (snd (rename s (sv_view sv) o n)) = snd (go_rename s sv o n).
+Proof. exact step_rename_over. Qed.
+
+(* ---- Rename of a directory ---------------------------------------------------------------------------------------------- *)
+(* the implementation's test on the resolved path STRINGS = the kernel's ancestor test on NODES, on the states of C05 *)
+Theorem C01_ancestor_iff_prefix : forall (h : heap) (u : user) (root : nat),
+  Inv_heap h -> node_is_dir h root = true -> kperm h root 1 u = true ->
+  forall (P Q : list str) (oc np : nat),
+  node_is_dir h oc = true -> dwalk h u root P = Some oc -> dwalk h u root Q = Some np ->
+  (is_ancestor (S (length h)) h root oc np = true <-> exists R, Q = P ++ R).
+Proof. exact ancestor_iff_prefix. Qed.
+
+Theorem C01_step_rename_dir_new :
+  forall (s : fsys) (sv : sview) (wo : list str) (clo : str) (wn : list str) (cln : str) (np : nat) (md : bool),
+  step_hyps s sv -> Inv_heap (f_heap s) -> path_ok s sv SlLstat (wo ++ [clo]) -> path_ok s sv SlLstat (wn ++ [cln]) ->
+  source_is_dir s sv (wo ++ [clo]) ->
+  klookup s sv false false (abs_path (wn ++ [cln])) = WNeg np cln md ->
+  let o := abs_path (wo ++ [clo]) in
+  let n := abs_path (wn ++ [cln]) in
+  (fst (rename s (sv_view sv) o n), proj_res Linux (snd (rename s (sv_view sv) o n))) = go_rename s sv o n.
+Proof. exact step_rename_dir_new. Qed.
+
+(* the history theorem with Rename of directories among the covered calls ([covered_x] = [covered] or that) *)
+Theorem C01_history_inv_x : forall (vi : nat) (cs : list call) (w : world) (sw : sworld),
+  Inv w -> absw w vi sw -> us_admin (v_user (sv_view (sw_sv sw))) = true -> links_ok (f_heap (w_fs w)) ->
+  call_ok_run_x vi sw cs ->
+  Forall2 obs_sim (snd (impl_run w cs)) (snd (spec_run sw cs))
+  /\ absw (fst (impl_run w cs)) vi (fst (spec_run sw cs))
+  /\ Inv (fst (impl_run w cs)) /\ links_ok (f_heap (w_fs (fst (impl_run w cs)))).
+Proof. exact history_inv_x. Qed.
